@@ -11,13 +11,16 @@ PROP = {
             "(2) every sequence of <= 3 (thorough: 4) tokens of the expression lexer in 6 expression contexts; "
             "(3) grammar-generated templates x generated environments (all tags, filters, operators; measured "
             "parse/render success rates in input_distribution gen:*); (4) random bytes / UTF-8 / delimiter-dense sources; "
-            "(5) the repository's own test templates and 4 (thorough: 40) mutants of each. Every case runs in a killable "
-            "worker process under recover, a deadline (50x a budget proportional to source size and spelled-out loop "
-            "sizes, re-measured once before reporting) and GOMEMLIMIT. A case is non-trivial when it renders non-empty "
-            "output; distinct by case line.",
+            "(5) the repository's own test templates and 4 (thorough: 40) mutants of each; (0) corpus/robust/*.case (the "
+            "inputs of every defect known so far) first. Every case runs in a killable worker process under recover, "
+            "GOMEMLIMIT and a heap watchdog; the time clause compares the CPU time of the case with 50x a budget "
+            "proportional to source size and spelled-out loop/range sizes, measured 3 times and scaled by a calibration "
+            "render timed alongside (so machine load does not raise alarms); a worker that dies is restarted and the "
+            "case retried (3 deaths = process-death). A case is non-trivial when it renders non-empty output; distinct "
+            "by case line.",
     "trusted_base": COMMON_TB,
     "assumptions": ["oracle only (no model yet): the Lean driver answers `unmodelled` for `robust` lines",
-                    "the time clause is checked as a 50-fold overshoot of a generous budget, twice in a row"],
+                    "the time clause is checked as a 50-fold overshoot of a generous budget in each of three measurements, relative to a calibration render"],
 }
 
 TEXT = {
